@@ -5,11 +5,11 @@ import vfw
 H = 'c10/h_c10.cpp'
 KINDS = {1: 'variables', 2: 'resets', 3: 'child components', 4: 'model units', 5: 'unit children'}
 # attributes that can be symbolic per kind (see the harness); measured-feasible combinations only
-ATTRS = {1: [1, 2, 3, 4, 5], 2: [1, 2, 5, 6, 7, 8], 3: [1, 2, 3, 4], 4: [1, 2, 3, 4, 5, 6, 7], 5: [1, 2, 3, 4, 5]}
+ATTRS = {1: [1, 2, 3, 4, 5], 2: [1, 2, 5, 6, 7, 8], 3: [1, 2, 3, 4, 5], 4: [1, 2, 3, 4, 5, 6, 7, 8], 5: [1, 2, 3, 4, 5]}
 ATTR_NAMES = {1: {1: 'name', 2: 'id', 3: 'initial value', 4: 'units', 5: 'interface'},
               2: {1: 'id', 2: 'order', 3: 'variable', 4: 'test variable', 5: 'test value', 6: 'reset value', 7: 'test value id', 8: 'reset value id'},
-              3: {1: 'name', 2: 'id', 3: 'encapsulation id', 4: 'math'},
-              4: {1: 'unit reference', 2: 'unit prefix', 3: 'unit exponent', 4: 'unit multiplier', 5: 'unit id', 6: 'units name', 7: 'units id'},
+              3: {1: 'name', 2: 'id', 3: 'encapsulation id', 4: 'math', 5: 'import reference'},
+              4: {1: 'unit reference', 2: 'unit prefix', 3: 'unit exponent', 4: 'unit multiplier', 5: 'unit id', 6: 'units name', 7: 'units id', 8: 'units import reference'},
               5: {1: 'reference', 2: 'prefix', 3: 'exponent', 4: 'multiplier', 5: 'id'}}
 
 
